@@ -368,6 +368,17 @@ func (dc *DataContext) SetValue(Vars map[string]reflect.Value, variable string, 
 			return core.SetSingleValue(v, variable, newValue)
 		} else {
 			//in RuleEntity
+			//a scalar read from an injected field or element is addressable: bind its value, not the storage,
+			//otherwise the local keeps following later changes of the field
+			if newValue.IsValid() && newValue.CanAddr() && newValue.CanInterface() {
+				switch newValue.Kind() {
+				case reflect.Bool, reflect.String,
+					reflect.Int, reflect.Int8, reflect.Int16, reflect.Int32, reflect.Int64,
+					reflect.Uint, reflect.Uint8, reflect.Uint16, reflect.Uint32, reflect.Uint64,
+					reflect.Float32, reflect.Float64:
+					newValue = reflect.ValueOf(newValue.Interface())
+				}
+			}
 			dc.lockVars.Lock()
 			Vars[variable] = newValue
 			dc.lockVars.Unlock()
